@@ -13,4 +13,8 @@ m(E,"optimiser failure ignored", B, "        if not opt_res.success:\n          
 m(E,"parameters written in reversed order", B, "            self.params[param_names[i]] = opt_res.x[i]", "            self.params[param_names[i]] = opt_res.x[-1 - i]")
 m(E,"rmse without the square root", B, "self.rmse = numpy.sqrt(numpy.sum((opt_res.fun)**2) / len(loading)) / model_range", "self.rmse = numpy.sum((opt_res.fun)**2) / len(loading) / model_range")
 m(E,"EQ parameter assignment via zip", B, "        for i, _ in enumerate(param_names):\n            self.params[param_names[i]] = opt_res.x[i]", "        for i, name_ in enumerate(param_names):\n            self.params[name_] = opt_res.x[i]", expect="silent")
+m(E,"EQ rmse via numpy.mean", B, "        self.rmse = numpy.sqrt(numpy.sum((opt_res.fun)**2) / len(loading)) / model_range", "        residuals = opt_res.fun\n        self.rmse = numpy.sqrt(numpy.mean(residuals**2)) / model_range", expect="silent")
+m(E,"EQ best fit via min(key=)", M, "        errors = [x.model.rmse for x in attempts]\n        best_fit = attempts[errors.index(min(errors))]", "        best_fit = min(attempts, key=lambda x: x.model.rmse)", expect="silent")
+m(E,"EQ fit arguments via dict()", B, "        fit_args = {\n            \"fun\": fit_func,  # fitting function\n            \"x0\": guess,  # initial guess\n            \"bounds\": bounds,  # supply the bounds of the parameters\n            \"args\": (pressure, loading),  # extra arguments to the fit function\n        }", "        fit_args = dict(fun=fit_func, x0=guess, bounds=bounds, args=(pressure, loading))", expect="silent")
+m(E,"Virial rmse divides outside the root", "src/pygaps/modelling/virial.py", "self.rmse = numpy.sqrt(numpy.sum((opt_res.fun)**2) / len(loading))", "self.rmse = numpy.sqrt(numpy.sum(opt_res.fun**2)) / len(loading)")
 build("C12", E)
